@@ -256,4 +256,128 @@ func c02(c *Ctx) {
 			r.Check(isPhi && fromRuntime, "FLOW", fkey(f)+"/level-total", c.InstrPos(scaled), "min scaling sees the parent's runtime of each level", "the total handed to the min scaling is "+an.Path(tot)+", not the level's own runtime carried down the loop: below the first level the minimums are scaled against the cluster total and children can be handed more than their parent owns")
 		}
 	}
+	c02tree(c)
+	c02scale(c)
+}
+
+// c02tree: every change of an input reaches the per-resource quota tree the division reads.
+func c02tree(c *Ctx) {
+	r := c.R
+	r.Rule("SIBLING(update-or-insert): in each of updateOneGroup{MaxQuota,MinQuota,SharedWeight,Request,Guaranteed}, every iteration over the resource keys either updates the existing tree node or inserts a new one (no iteration leaves the node as it was), the update call is guarded by the existence test only, and the version counter is incremented on every path")
+	for _, t := range []struct{ fn, upd string }{
+		{"updateOneGroupMaxQuota", ""}, {"updateOneGroupMinQuota", "updateMin"}, {"updateOneGroupSharedWeight", "updateSharedWeight"},
+		{"updateOneGroupRequest", "updateRequest"}, {"updateOneGroupGuaranteed", "updateGuaranteed"},
+	} {
+		fn := c.Fn(quotaCorePkg, "RuntimeQuotaCalculator", t.fn)
+		if fn == nil {
+			continue
+		}
+		key := fkey(fn)
+		var hdr *ssa.BasicBlock
+		for _, b := range fn.Blocks {
+			for _, in := range b.Instrs {
+				if _, ok := in.(*ssa.Next); ok {
+					hdr = b
+				}
+			}
+		}
+		isTreeOp := func(in ssa.Instruction) bool {
+			cl, ok := in.(ssa.CallInstruction)
+			if !ok || cl.Common().StaticCallee() == nil {
+				return false
+			}
+			n := an.ShortCallee(cl.Common())
+			if !strings.HasSuffix(an.FullName(cl.Common().StaticCallee()), "quotaTree)."+n) {
+				return false
+			}
+			return n == "insert" || (strings.HasPrefix(n, "update") && (t.upd == "" || n == t.upd))
+		}
+		if hdr == nil {
+			r.Unknown("SIBLING", key+"/every-key", c.Pos(fn.Pos()), "range loop over the resource keys not found")
+			continue
+		}
+		var body *ssa.BasicBlock
+		if ifi, ok := hdr.Instrs[len(hdr.Instrs)-1].(*ssa.If); ok {
+			body = ifi.Block().Succs[0]
+		}
+		if body == nil {
+			r.Unknown("SIBLING", key+"/every-key", c.Pos(fn.Pos()), "loop body not found")
+			continue
+		}
+		reach := an.Explore(fn, &an.Start{Block: body, Index: 0}, nil, isTreeOp)
+		r.Check(!reach.BlockReached(hdr) && len(reach.Returns()) == 0, "SIBLING", key+"/every-key", c.Pos(fn.Pos()), "each resource key's node is updated or inserted", "an iteration can finish without updating or inserting the tree node (the division keeps reading the previous value while the calculator's cache says nothing is left to do)")
+		// version bump
+		reach = an.Explore(fn, nil, nil, func(in ssa.Instruction) bool {
+			st, ok := in.(*ssa.Store)
+			if !ok {
+				return false
+			}
+			_, f, _, ok := an.FieldOf(st.Addr)
+			return ok && f == "globalRuntimeVersion"
+		})
+		r.Check(len(reach.Returns()) == 0, "SIBLING", key+"/version-bump", c.Pos(fn.Pos()), "globalRuntimeVersion is incremented", "the function can return without incrementing globalRuntimeVersion: cached runtimes are not recomputed")
+	}
+}
+
+// c02scale: the per-parent sums of the min-scaling are keyed by the parent, the per-quota records by the quota.
+func c02scale(c *Ctx) {
+	r := c.R
+	r.Rule("KEY-ROLE(min scaling): in ScaleMinQuotaManager.{update,remove,getScaledMinQuota} every keyed access to enableScaleSubsSumMinQuotaMap/disableScaleSubsSumMinQuotaMap uses the parent-name parameter and every keyed access to originalMinQuotaMap/quotaEnableMinQuotaScaleMap uses the quota's own name parameter (the sums belong to the parent; a quota's own name indexes the sums of ITS children)")
+	role := map[string]int{"enableScaleSubsSumMinQuotaMap": 0, "disableScaleSubsSumMinQuotaMap": 0, "originalMinQuotaMap": 1, "quotaEnableMinQuotaScaleMap": 1}
+	n := 0
+	for _, name := range []string{"update", "remove", "getScaledMinQuota"} {
+		fn := c.Fn(quotaCorePkg, "ScaleMinQuotaManager", name)
+		if fn == nil {
+			continue
+		}
+		var strs []*ssa.Parameter
+		for _, p := range fn.Params {
+			if b, ok := p.Type().Underlying().(*types.Basic); ok && b.Kind() == types.String {
+				strs = append(strs, p)
+			}
+		}
+		if len(strs) != 2 {
+			r.Unknown("KEY-ROLE", fkey(fn)+"/params", c.Pos(fn.Pos()), "expected (parent name, quota name) string parameters")
+			continue
+		}
+		var bad []string
+		check := func(m, k ssa.Value, in ssa.Instruction) {
+			_, f, _, ok := an.FieldOf(mapField(m))
+			if !ok {
+				return
+			}
+			want, tracked := role[f]
+			if !tracked {
+				return
+			}
+			n++
+			if k != ssa.Value(strs[want]) {
+				bad = append(bad, sprintf("%s[%s] at %s", f, an.Path(k), c.InstrPos(in)))
+			}
+		}
+		for _, b := range fn.Blocks {
+			for _, in := range b.Instrs {
+				switch x := in.(type) {
+				case *ssa.Lookup:
+					check(x.X, x.Index, in)
+				case *ssa.MapUpdate:
+					check(x.Map, x.Key, in)
+				case ssa.CallInstruction:
+					if bi, ok := x.Common().Value.(*ssa.Builtin); ok && bi.Name() == "delete" {
+						check(x.Common().Args[0], x.Common().Args[1], in)
+					}
+				}
+			}
+		}
+		r.Check(len(bad) == 0, "KEY-ROLE", fkey(fn)+"/keys", c.Pos(fn.Pos()), "sum maps keyed by the parent, records keyed by the quota", "wrong key role: "+strings.Join(bad, "; ")+" (expected "+strs[0].Name()+" for the per-parent sums and "+strs[1].Name()+" for the per-quota records)")
+	}
+	r.Floor("KEY-ROLE", "keyed accesses in ScaleMinQuotaManager", n, 20)
+}
+
+// mapField returns the address of the field a map value was loaded from (or the value itself).
+func mapField(m ssa.Value) ssa.Value {
+	if u, ok := m.(*ssa.UnOp); ok && u.Op == token.MUL {
+		return u.X
+	}
+	return m
 }
